@@ -74,6 +74,9 @@ def make_statk(name, rec, numkind):
     return h
 
 
+LAST_UNIT = [Fraction(1)]      # the exact grid unit of the values generated last (shifts are multiples of it)
+
+
 def gen_values(rng, n, mult, dist):
     """n data values: small-alphabet integers times `mult`, times a power-of-two scale, plus an optional large
     offset; all exactly representable, so float statistics on them are exact"""
@@ -82,6 +85,7 @@ def gen_values(rng, n, mult, dist):
     offset = rng.choice([0, 0, 0, 2**20, -2**18])
     dist.add("alphabet", alpha); dist.add("scale_log2", scale); dist.add("offset", offset)
     vals = [Fraction(rng.randint(-alpha, alpha) * mult + offset * mult) * Fraction(2) ** scale for _ in range(n)]
+    LAST_UNIT[0] = Fraction(mult) * Fraction(2) ** scale
     return vals
 
 
@@ -128,7 +132,7 @@ def cases(tier, rng, dist, focus=None):
         sh = None
         if focus == "C16" or rng.random() < 0.35:
             kind = rng.choice(["scalar", "scalar", "scalar_half", "scalar0", "pair_add", "pair_mul", "pair_bad", "none", "single"])
-            d = Fraction(rng.choice([1, -1, 7, -3, 2**20, 1]) * mult) * rng.choice([1, 1, Fraction(1, 2)])
+            d = Fraction(rng.choice([1, -1, 7, -3, 2**20, 1])) * LAST_UNIT[0] * rng.choice([1, 1, Fraction(1, 2)])
             if kind == "scalar_half":
                 # integer-dtype samples with a non-integer shift (exact for the callable statistics)
                 vals = [Fraction(rng.randint(-3, 3)) for _ in range(nx + ny)]
@@ -196,7 +200,7 @@ def shift_arg(sh):
         d = float(Fraction(sh[2]))
         if sh[1] == "add": return (lambda u: u + d, lambda u: u - d)
         if sh[1] == "mul": return (lambda u: u * 2.0, lambda u: u / 2.0)
-        return (lambda u: u + d, lambda u: u - 2 * d - 1)
+        return (lambda u: u + d, lambda u: u - d - 1)
     if sh[0] == "none":
         return None
     return (lambda u: u)   # a single callable, not a tuple
@@ -210,7 +214,7 @@ def shift_coq(sh):
         d = F(sh[2])
         if sh[1] == "add": return f"(Some (Pair (AddC {cq(d)}) (AddC {cq(-d)})))"
         if sh[1] == "mul": return "(Some (Pair (MulC (2#1)%Q) (MulC (1#2)%Q)))"
-        return f"(Some (Pair (AddC {cq(d)}) (AddC {cq(-2 * d - 1)})))"
+        return f"(Some (Pair (AddC {cq(d)}) (AddC {cq(-d - 1)})))"
     if sh[0] == "none": return "(Some NoShift)"
     return "(Some SingleCallable)"
 
